@@ -58,11 +58,16 @@ def gen_run(rng):
 
 def check_run(case, dist, na, seed, lines):
     P = []
-    r = orch.run_orchestrated(case, "dpop", {}, na, dist, seed, timeout=T, lines=lines, p_long=0.02, start_delays=True)
+    r = orch.run_orchestrated(case, "dpop", {}, na, dist, seed, timeout=T, lines=lines, p_long=0.02, start_delays=True, watchdog=45.0)
     W = {"case": case, "dist": dist, "nagents": na, "seed": seed, "lines": lines, "mapping": r.get("mapping"),
          "status": r.get("status"), "run_wall": r.get("run_wall")}
     if "dist_error" in r:
         return [], W, r, "distribution-failed"
+    if r.get("watchdog") and r.get("blocked_while_quiescent"):
+        # not a wall-clock verdict: every agent thread is idle with an empty queue, nothing can make run() return
+        P.append(("run-blocked-while-every-agent-is-idle", "run() had not returned after %s s and the system is quiescent: (agent, thread alive, queued, "
+                  "messages ever queued) = %r; mapping %r, late agents %r" % (45, r.get("blocked_state"), r.get("mapping"), r.get("start_delays"))))
+        return P, W, r, "blocked"
     if r["errors"]:
         P.append(("harness:exception", r["errors"][0]))
         return P, W, r, "error"
@@ -154,7 +159,7 @@ def main(chk, tier, seed):
     chk.rule = RULE
     chk.assumptions = ["the run is observed on Orchestrator.run() as the solve command does (status right after run(), end_metrics())",
                        "entries equal to 10000 are the runtime's infinity (run.INFINITY) and only generated for min problems",
-                       "a firing of the harness watchdog (worker timeout) is inconclusive; the orchestrator's own 20 s timer is the property's bound"]
+                       "a firing of the harness watchdog (45 s) is inconclusive, unless every agent thread is then idle with an empty queue on two samples 1.5 s apart (a quiescent system cannot make run() return any more: reported as a violation); the orchestrator's own 20 s timer is the property's bound"]
     n = 64 if tier == "quick" else 1600
     common.run_chunked(chk, "c22", n, nchunks=16 if tier == "quick" else 64, job_extra={"lines": tier == "thorough"}, timeout=600 if tier == "quick" else 3000)
     out = chk.extra.get("outcomes", {})
